@@ -30,6 +30,12 @@ def units(tier):
     return [
         SL("slice.terminate_broken", "x6_terminate_broken", 44),
         H("C20", M, "check_join_internals", t, [PE + "join_executor_internals"], "0..3 workers"),
+        H("C20", M, "check_shutdown_workers_small_queue", t, [PE + "shutdown_workers", PE + "get_n_children_alive"],
+          "1..3 workers idle or already leaving, call queue with 1..2 free slots: the manager thread gets through shutdown_workers "
+          "(if it dies there, the queues, the wakeup pipe and the feeder thread are never released)"),
+        H("C20", M, "check_shutdown_workers", t, [PE + "shutdown_workers", PE + "get_n_children_alive"], "0..3 workers each alive or not, Full raised 0..3 times"),
+        H("C20", M, "check_exit_registry", t, ["loky.process_executor:ProcessPoolExecutor._start_executor_manager_thread", "loky.process_executor:_python_exit", "loky.process_executor:ProcessPoolExecutor.shutdown"],
+          "1..3 executors released by shutdown(wait=False) / plain drop / shutdown(wait=True), with or without the interpreter-exit hook running first"),
         H("C20", M, "check_terminate_broken", t, [PE + "terminate_broken"], "0..3 pending, 0..3 workers"),
         H("C20", M, "check_wakeup_close_idempotent", t, ["loky.process_executor:_ThreadWakeup.close"], "1..3 closes"),
         H("C20", "lokyverif.harness.c18_spawn", "check_launch", t, ["loky.backend.popen_loky_posix:Popen._launch"], "descriptor table after launch = {sentinel}"),
